@@ -151,6 +151,19 @@ def noCapHit (c : Cfg) : St → List Arr → Bool
   | _, [] => true
   | s, a :: rest => !capHit c s a && noCapHit c (addEvent c s a).1 rest
 
+/-- the events `remove(0)` evicts when `a` is pushed: the oldest *arrivals* of its (source, key)
+vector beyond `max − 1` -/
+def evictedAt (c : Cfg) (s : St) (a : Arr) : List Ev :=
+  if a.src ∈ c.sources then
+    let v := get (cleanupWith expireVec c s a.ev.ts).bufs (a.src, a.key)
+    v.take (v.length + 1 - c.maxPerKey)
+  else []
+
+/-- all events evicted by the cap during a history -/
+def evictedBy (c : Cfg) : St → List Arr → List Ev
+  | _, [] => []
+  | s, a :: rest => evictedAt c s a ++ evictedBy c (addEvent c s a).1 rest
+
 /-! ## Specification (what the property promises) -/
 
 /-- all events that arrived from `src` with key `key`, in arrival order -/
